@@ -3,6 +3,7 @@ package main
 import (
 	"encoding/binary"
 	"fmt"
+	"go.nanomsg.org/mangos/v3/protocol/xsurveyor"
 	"time"
 
 	"go.nanomsg.org/mangos/v3"
@@ -201,6 +202,12 @@ func runSurveyorScenario(c *Ctx, nops int, zeroTime bool) {
 				if e.OpenCtx(id) == "ok" {
 					ctxs = append(ctxs, id)
 					survTime[id] = survTime[0]
+					// a context has a survey time of its own (inherited from the socket when it is opened)
+					if !zeroTime && c.R.Intn(3) != 0 {
+						t := c.R.Pick(25, 150, 150)
+						e.SetOpt(id, mangos.OptionSurveyTime, fmt.Sprint(t), time.Duration(t)*time.Millisecond)
+						survTime[id] = t
+					}
 				}
 			} else if cx != 0 && !closedCtx[cx] && c.R.Intn(3) == 0 {
 				e.CloseCtx(cx)
@@ -249,5 +256,9 @@ func runC07(c *Ctx) {
 	}
 	for i := 0; i < n/8+2; i++ {
 		runSurveyorScenario(c, 25, true) // an accepted survey time of zero means no limit
+	}
+	// raw SURVEYOR: no survey state, but every connected respondent is sent each survey, queue space permitting
+	for i := 0; i < n; i++ {
+		runFanoutScenario(c, "XSURVEYOR", "respondent", xsurveyor.NewProtocol(), be32(0x80000000|uint32(i+1)), false, 40)
 	}
 }
